@@ -785,3 +785,63 @@ func ruleTailCdr(c *Ctx, r *Report) {
 	}
 	r.analysed(rule, fname(fn))
 }
+
+// ---------------------------------------------------------------------------
+// R-CODE-NARROW (C16, C05; added with fix F26): a Prolog integer that is used as a character code, a byte
+// or any other narrow quantity is range-checked BEFORE it is converted to the narrow Go type: at every
+// conversion in the engine from engine.Integer to a Go integer type of at most 32 bits the branch facts
+// bound the Integer inside the target's range. Validating the truncated value instead (utf8.ValidRune of
+// rune(n)) accepts every n that is a valid code modulo 2^32: char_code(C, 4294967393) answers C = a.
+
+func ruleCodeNarrow(c *Ctx, r *Report) {
+	const rule = "R-CODE-NARROW"
+	desc := "an Integer is bounded by branch facts inside the range of the narrow type it is converted to"
+	n := 0
+	for _, fn := range c.LibFuncs() {
+		if funcPkg(fn) != c.Engine {
+			continue
+		}
+		seen := map[string]int{}
+		eachInstr(fn, func(in ssa.Instruction) {
+			cv, ok := in.(*ssa.Convert)
+			if !ok || !isEngNamed(cv.X.Type(), "Integer") {
+				return
+			}
+			dst, ok := cv.Type().Underlying().(*types.Basic)
+			if !ok || dst.Info()&types.IsInteger == 0 {
+				return
+			}
+			var lo, hi int64
+			switch dst.Kind() {
+			case types.Int8:
+				lo, hi = math.MinInt8, math.MaxInt8
+			case types.Uint8:
+				lo, hi = 0, math.MaxUint8
+			case types.Int16:
+				lo, hi = math.MinInt16, math.MaxInt16
+			case types.Uint16:
+				lo, hi = 0, math.MaxUint16
+			case types.Int32:
+				lo, hi = math.MinInt32, math.MaxInt32
+			case types.Uint32:
+				lo, hi = 0, math.MaxUint32
+			default:
+				return
+			}
+			n++
+			base := fmt.Sprintf("%s/%s(%s)", fname(fn), cv.Type().String(), stableName(cv.X))
+			seen[base]++
+			key := fmt.Sprintf("%s#%d", base, seen[base])
+			rg := c.rangeOfIndex(cv.X, in)
+			if rg.hasLo && rg.hasHi && rg.lo >= lo && rg.hi <= hi {
+				r.ok(rule, key, c.at(in), desc, fmt.Sprintf("bounded to [%d,%d] on every path to the conversion", rg.lo, rg.hi), true)
+			} else {
+				r.bad(rule, base, c.at(in), desc, fmt.Sprintf("the Integer is converted to %s without being bounded to [%d,%d] first: values outside are truncated and then pass for valid", cv.Type().String(), lo, hi))
+			}
+		})
+	}
+	if n == 0 {
+		r.bad(rule, "scan/narrowing", "-", desc, "no narrowing conversion of an Integer found in the engine")
+	}
+	r.analysed(rule, fmt.Sprintf("%d narrowing conversions of engine.Integer in the engine", n))
+}
